@@ -20,7 +20,7 @@ def run(tier, seed):
                    'Range/RangeIndex equality', 'InlineCall.__hash__', 'Cast'],
         bounds={'pool': 45, 'quick': 'pairs with 0 <= b - a <= 2 (case variants are adjacent in the pool)', 'literal_values': '-5..5'},
         assumptions=['pool classes (which entries denote the same expression) are fixed in harness/C11_expr_eq.py'],
-        timeout_quick=240, timeout_thorough=900)
+        timeout_quick=150, timeout_thorough=600)
 
 
 def replay(path):
